@@ -13,7 +13,7 @@ import ast
 import os
 
 from ..core import AnalysisError
-from ..genf import table_of, Unsupported, diff_tables, names_in, show
+from ..genf import table_of, Unsupported, diff_tables, names_in, opaque_names, imprecise_kinds, show
 from ..report import Inst
 
 RULE = 'R17'
@@ -98,16 +98,21 @@ def run(ctx) -> list[Inst]:
                               file=rel, line=f.node.lineno, props=props))
             continue
         v1, v2 = set(), set()
-        names_in(table, v1)
-        names_in(ref_table, v2)
+        opaque_names(table, v1)
+        opaque_names(ref_table, v2)
         extra = sorted(v1 - v2)
+        k1, k2 = set(), set()
+        imprecise_kinds(table, k1)
+        imprecise_kinds(ref_table, k2)
+        if not extra and k1 - k2:
+            extra = [f'<uninterpreted construct: {x}>' for x in sorted(k1 - k2)]
         try:
             d = diff_tables(table, ref_table)
         except Exception as e:      # rendering only
             d = f'tables differ (rendering failed: {e})'
         if extra:
             insts.append(Inst(RULE, fname, construct, 'unproven',
-                              msg=f'table differs but uses names unknown to the reference {extra}: {d[:300]}',
+                              msg=f'table differs but calls functions / reads globals the reference does not know {extra}: {d[:300]}',
                               file=rel, line=f.node.lineno, props=props))
         else:
             insts.append(Inst(RULE, fname, construct, 'violation',
